@@ -6,7 +6,7 @@
 use std::io::{self, Cursor, ErrorKind};
 
 use compio_buf::BufResult;
-use compio_io::{AsyncRead, AsyncReadAt, AsyncReadAtExt, AsyncReadExt, AsyncWrite, AsyncWriteAt, AsyncWriteAtExt, AsyncWriteExt};
+use compio_io::{AsyncRead, AsyncReadAt, AsyncReadAtExt, AsyncReadExt, AsyncWriteAt, AsyncWriteAtExt, AsyncWriteExt};
 
 use super::{
     Case, Ck, Helper, caps, marks, payload, pick, pick_members,
@@ -22,7 +22,7 @@ fn kind<T>(r: &io::Result<T>) -> Result<&T, ErrorKind> {
 }
 
 /// Fill-exactly from `avail`.
-fn expect_exact(ck: &mut Ck<'_>, avail: &[u8], want: usize, res: &io::Result<()>, filled: &[u8]) {
+fn expect_exact(ck: &mut Ck, avail: &[u8], want: usize, res: &io::Result<()>, filled: &[u8]) {
     if avail.len() >= want {
         match res {
             Ok(()) => {
@@ -41,7 +41,7 @@ fn expect_exact(ck: &mut Ck<'_>, avail: &[u8], want: usize, res: &io::Result<()>
     }
 }
 
-fn expect_to_end(ck: &mut Ck<'_>, avail: &[u8], pre: &[u8], res: &io::Result<usize>, dest: &[u8]) {
+fn expect_to_end(ck: &mut Ck, avail: &[u8], pre: &[u8], res: &io::Result<usize>, dest: &[u8]) {
     match res {
         Ok(t) if *t != avail.len() => ck.fail("count-mismatch", format!("reported {t}, {} bytes available", avail.len())),
         Ok(_) => {}
@@ -54,7 +54,7 @@ fn expect_to_end(ck: &mut Ck<'_>, avail: &[u8], pre: &[u8], res: &io::Result<usi
     }
 }
 
-fn pos_tags(c: &Case, len: usize, ck: &mut Ck<'_>) {
+fn pos_tags(c: &Case, len: usize, ck: &mut Ck) {
     if c.pos > len as u64 {
         ck.tag("beyond-end");
     }
@@ -78,7 +78,7 @@ fn p_slice_reader(ch: &mut dyn Chooser, c: &mut Case) {
     }
 }
 
-fn slice_reader(c: &Case, ck: &mut Ck<'_>) {
+fn slice_reader(c: &Case, ck: &mut Ck) {
     let data = payload(c.n, 0);
     let mut src: &[u8] = &data;
     match c.aux {
@@ -162,7 +162,7 @@ fn p_read_at(ch: &mut dyn Chooser, c: &mut Case) {
     }
 }
 
-fn read_at_ops<A: AsyncReadAt + ?Sized>(src: &A, data: &[u8], c: &Case, ck: &mut Ck<'_>) {
+fn read_at_ops<A: AsyncReadAt + ?Sized>(src: &A, data: &[u8], c: &Case, ck: &mut Ck) {
     let region = &data[(c.pos.min(data.len() as u64)) as usize..];
     match c.aux {
         0 => {
@@ -218,7 +218,7 @@ fn read_at_ops<A: AsyncReadAt + ?Sized>(src: &A, data: &[u8], c: &Case, ck: &mut
     }
 }
 
-fn read_at(c: &Case, ck: &mut Ck<'_>) {
+fn read_at(c: &Case, ck: &mut Ck) {
     let data = payload(c.n, 0);
     pos_tags(c, c.n, ck);
     match c.text {
@@ -260,7 +260,7 @@ fn p_cursor_read(ch: &mut dyn Chooser, c: &mut Case) {
     }
 }
 
-fn cursor_read_ops<A: AsyncReadAt>(mut cur: Cursor<A>, data: &[u8], c: &Case, ck: &mut Ck<'_>) {
+fn cursor_read_ops<A: AsyncReadAt>(mut cur: Cursor<A>, data: &[u8], c: &Case, ck: &mut Ck) {
     cur.set_position(c.pos);
     let region = &data[(c.pos.min(data.len() as u64)) as usize..];
     let taken = match c.aux {
@@ -301,7 +301,7 @@ fn cursor_read_ops<A: AsyncReadAt>(mut cur: Cursor<A>, data: &[u8], c: &Case, ck
     }
 }
 
-fn cursor_read(c: &Case, ck: &mut Ck<'_>) {
+fn cursor_read(c: &Case, ck: &mut Ck) {
     let data = payload(c.n, 0);
     pos_tags(c, c.n, ck);
     if c.text == 1 {
@@ -325,7 +325,7 @@ fn p_vec_writer(ch: &mut dyn Chooser, c: &mut Case) {
     }
 }
 
-fn expect_write<T>(ck: &mut Ck<'_>, fits: bool, res: &io::Result<T>) {
+fn expect_write<T>(ck: &mut Ck, fits: bool, res: &io::Result<T>) {
     match (fits, res) {
         (true, Err(e)) => ck.fail("spurious-error", format!("everything fits, got {:?}", e.kind())),
         (false, Ok(_)) => ck.fail("silent-truncation", "Ok although the destination is too small".into()),
@@ -334,7 +334,7 @@ fn expect_write<T>(ck: &mut Ck<'_>, fits: bool, res: &io::Result<T>) {
     }
 }
 
-fn vec_writer(c: &Case, ck: &mut Ck<'_>) {
+fn vec_writer(c: &Case, ck: &mut Ck) {
     let src = payload(c.n, 0);
     let pre = marks(c.pre);
     if c.pre > 0 {
@@ -364,7 +364,7 @@ fn p_mutslice_writer(ch: &mut dyn Chooser, c: &mut Case) {
     }
 }
 
-fn mutslice_writer(c: &Case, ck: &mut Ck<'_>) {
+fn mutslice_writer(c: &Case, ck: &mut Ck) {
     let src = payload(c.n, 0);
     let mut store = marks(c.cap);
     let left;
@@ -404,7 +404,7 @@ fn p_write_at(ch: &mut dyn Chooser, c: &mut Case) {
     }
 }
 
-fn write_at_op<W: AsyncWriteAt + ?Sized>(w: &mut W, src: &[u8], c: &Case, ck: &mut Ck<'_>) -> Option<io::Result<()>> {
+fn write_at_op<W: AsyncWriteAt + ?Sized>(w: &mut W, src: &[u8], c: &Case, ck: &mut Ck) -> Option<io::Result<()>> {
     Some(if c.aux == 1 {
         ck.tag("vectored");
         match crate::c11::exec(ck, w.write_vectored_all_at(cut(src, &c.members), c.pos)) {
@@ -419,7 +419,7 @@ fn write_at_op<W: AsyncWriteAt + ?Sized>(w: &mut W, src: &[u8], c: &Case, ck: &m
     })
 }
 
-fn write_at(c: &Case, ck: &mut Ck<'_>) {
+fn write_at(c: &Case, ck: &mut Ck) {
     let src = payload(c.n, 0);
     let store = marks(c.pre);
     pos_tags(c, c.pre, ck);
@@ -481,13 +481,10 @@ pub fn register(v: &mut Vec<Helper>) {
             run,
         })
     };
-    add("mem/slice-reader", p_slice_reader as fn(&mut dyn Chooser, &mut Case), slice_reader as fn(&Case, &mut Ck<'_>));
+    add("mem/slice-reader", p_slice_reader as fn(&mut dyn Chooser, &mut Case), slice_reader as fn(&Case, &mut Ck));
     add("mem/read_at", p_read_at, read_at);
     add("mem/cursor-read", p_cursor_read, cursor_read);
     add("mem/vec-writer", p_vec_writer, vec_writer);
     add("mem/mutslice-writer", p_mutslice_writer, mutslice_writer);
     add("mem/write_at", p_write_at, write_at);
 }
-
-#[allow(dead_code)]
-fn _bounds<R: AsyncRead, W: AsyncWrite>(_: R, _: W) {}
